@@ -1,5 +1,6 @@
 import Tv.Thm.C01
 import Tv.Lemmas.Local
+import Tv.Thm.C03
 /-!
 # C05 — rolling outputs are input-length and null exactly during warm-up
 
@@ -58,5 +59,103 @@ theorem minK_le_eff (f : Feat) (w : Nat) (mp : Option Nat) : f.minK ≤ effMp mp
 
 example : (tsFeat .var .iter [some 1, none, some 3, some 7] 3 none)[1]? = some .null :=
   (feat_null_iff .var .iter _ 3 none (by decide) 1 (by decide)).mpr (by decide)
+
+
+/-! ## Part 2 — extrema / arg-extrema / rank / normalisation family (from the C03 `_exact` theorems)
+
+Effective minimum: `cmpMp mp w len = mp.getD (min len w / 2)` for the five cmp.rs functions (the
+window is clamped to the length *before* the default is taken and an explicit `min_periods` is
+not clamped — DESIGN 5.3), `normMp mp w = min (mp.getD (w/2)) w` for the two norm.rs functions.
+The count is the number of non-null elements of the window. -/
+
+open Tv.C03 in
+/-- below the effective minimum every one of the seven specs is null -/
+theorem c03_spec_null_below (m : Nat) (l : List (Option Rat)) (h : (C03.Spec.vals l).length < m) :
+    C03.Spec.tsMin m l = .null ∧ C03.Spec.tsMax m l = .null ∧ C03.Spec.tsArgmin m l = .null ∧
+    C03.Spec.tsArgmax m l = .null ∧ (∀ pct rev, C03.Spec.tsRank m pct rev l = .null) ∧
+    C03.Spec.tsMinmaxnorm m l = .null ∧ C03.Spec.tsZscore m l = .null := by
+  have hm : ∀ o, C03.Spec.masked m l o = .null := by
+    intro o; simp [C03.Spec.masked, Nat.not_le_of_lt h]
+  refine ⟨hm _, hm _, hm _, hm _, ?_, ?_, ?_⟩
+  · intro pct rev; unfold C03.Spec.tsRank; split <;> simp [hm]
+  · unfold C03.Spec.tsMinmaxnorm; split <;> simp [hm]
+  · unfold C03.Spec.tsZscore; split <;> simp [hm]
+
+/-- once the count is reached (and at least one valid element exists) minimum and maximum are non-null -/
+theorem c03_minmax_nonnull (m : Nat) (l : List (Option Rat)) (h : m ≤ (C03.Spec.vals l).length)
+    (h1 : 1 ≤ (C03.Spec.vals l).length) :
+    C03.Spec.tsMin m l ≠ .null ∧ C03.Spec.tsMax m l ≠ .null := by
+  have hne : C03.Spec.vals l ≠ [] := by
+    intro h0; rw [h0] at h1; simp at h1
+  constructor
+  · simp only [C03.Spec.tsMin, C03.Spec.masked, ge_iff_le, h, if_true]
+    cases hl : C03.Spec.least (C03.Spec.vals l) with
+    | none => exact absurd ((C03.least_none_iff _).mp hl) hne
+    | some q => simp [C03.Spec.ofOpt]
+  · simp only [C03.Spec.tsMax, C03.Spec.masked, ge_iff_le, h, if_true]
+    cases hl : C03.Spec.greatest (C03.Spec.vals l) with
+    | none =>
+      exfalso
+      -- greatest = none only for the empty list
+      cases hv : C03.Spec.vals l with
+      | nil => exact hne hv
+      | cons x r =>
+        rw [hv] at hl
+        simp only [C03.Spec.greatest] at hl
+        split at hl <;> simp at hl
+    | some q => simp [C03.Spec.ofOpt]
+
+/-- **length** of every output of the family = length of the input (`[]` for `[]`) -/
+theorem c03_len (sh : Shape) (xs : List (Option Rat)) (w : Nat) (mp : Option Nat) (hw : 1 ≤ w) :
+    (C03.tsVmin sh xs w mp).length = xs.length ∧ (C03.tsVmax sh xs w mp).length = xs.length ∧
+    (C03.tsVargmin sh xs w mp).length = xs.length ∧ (C03.tsVargmax sh xs w mp).length = xs.length ∧
+    (∀ pct rev, (C03.tsVrank sh xs w mp pct rev).length = xs.length) ∧
+    (C03.tsVminmaxnorm sh xs w mp).length = xs.length ∧ (C03.tsVzscore sh xs w mp).length = xs.length := by
+  refine ⟨?_, ?_, ?_, ?_, ?_, ?_, ?_⟩
+  · rw [C03.vmin_exact sh xs w mp hw]; simp
+  · rw [C03.vmax_exact sh xs w mp hw]; simp
+  · rw [C03.vargmin_exact sh xs w mp hw]; simp
+  · rw [C03.vargmax_exact sh xs w mp hw]; simp
+  · intro pct rev; rw [C03.vrank_exact sh xs w mp pct rev hw]; simp
+  · rw [C03.vminmaxnorm_exact sh xs w mp hw]; simp
+  · rw [C03.vzscore_exact sh xs w mp hw]; simp
+
+/-- **mask law, extrema / rank family**: output `i` is null whenever the window holds fewer than
+`cmpMp mp w len` non-null elements -/
+theorem c03_cmp_null_below (sh : Shape) (xs : List (Option Rat)) (w : Nat) (mp : Option Nat)
+    (hw : 1 ≤ w) (i : Nat) (hi : i < xs.length)
+    (h : (C03.Spec.vals (window xs i w)).length < C03.cmpMp mp w xs.length) :
+    (C03.tsVmin sh xs w mp)[i]? = some .null ∧ (C03.tsVmax sh xs w mp)[i]? = some .null ∧
+    (C03.tsVargmin sh xs w mp)[i]? = some .null ∧ (C03.tsVargmax sh xs w mp)[i]? = some .null ∧
+    (∀ pct rev, (C03.tsVrank sh xs w mp pct rev)[i]? = some .null) := by
+  have hs := c03_spec_null_below _ _ h
+  refine ⟨?_, ?_, ?_, ?_, ?_⟩
+  · rw [C03.vmin_exact sh xs w mp hw]; simp [List.getElem?_range hi, hs.1]
+  · rw [C03.vmax_exact sh xs w mp hw]; simp [List.getElem?_range hi, hs.2.1]
+  · rw [C03.vargmin_exact sh xs w mp hw]; simp [List.getElem?_range hi, hs.2.2.1]
+  · rw [C03.vargmax_exact sh xs w mp hw]; simp [List.getElem?_range hi, hs.2.2.2.1]
+  · intro pct rev
+    rw [C03.vrank_exact sh xs w mp pct rev hw]; simp [List.getElem?_range hi, hs.2.2.2.2.1]
+
+/-- **mask law, normalisation family** -/
+theorem c03_norm_null_below (sh : Shape) (xs : List (Option Rat)) (w : Nat) (mp : Option Nat)
+    (hw : 1 ≤ w) (i : Nat) (hi : i < xs.length)
+    (h : (C03.Spec.vals (window xs i w)).length < C03.normMp mp w) :
+    (C03.tsVminmaxnorm sh xs w mp)[i]? = some .null ∧ (C03.tsVzscore sh xs w mp)[i]? = some .null := by
+  have hs := c03_spec_null_below _ _ h
+  constructor
+  · rw [C03.vminmaxnorm_exact sh xs w mp hw]; simp [List.getElem?_range hi, hs.2.2.2.2.2.1]
+  · rw [C03.vzscore_exact sh xs w mp hw]; simp [List.getElem?_range hi, hs.2.2.2.2.2.2]
+
+/-- minimum / maximum are non-null once the count is reached and the window has a valid element -/
+theorem c03_minmax_nonnull_at (sh : Shape) (xs : List (Option Rat)) (w : Nat) (mp : Option Nat)
+    (hw : 1 ≤ w) (i : Nat) (hi : i < xs.length)
+    (h : C03.cmpMp mp w xs.length ≤ (C03.Spec.vals (window xs i w)).length)
+    (h1 : 1 ≤ (C03.Spec.vals (window xs i w)).length) :
+    (C03.tsVmin sh xs w mp)[i]? ≠ some .null ∧ (C03.tsVmax sh xs w mp)[i]? ≠ some .null := by
+  have hs := c03_minmax_nonnull _ _ h h1
+  constructor
+  · rw [C03.vmin_exact sh xs w mp hw]; simp [List.getElem?_range hi, hs.1]
+  · rw [C03.vmax_exact sh xs w mp hw]; simp [List.getElem?_range hi, hs.2]
 
 end Tv.C05
